@@ -84,3 +84,10 @@ package domain
 //@ func NewEndpointError
 //@   property C07 C03
 //@   ensures res != nil && fresh(res)
+
+//@ func NewModelRoutingError
+//@   property C09
+//@   ensures res != nil && fresh(res)
+
+//@ spec func listedURL(u string, xs []string) bool = exists li int :: 0 <= li && li < len(xs) && xs[li] == u
+//@ spec func noneListed(es []*Endpoint, xs []string) bool = forall ni int :: 0 <= ni && ni < len(es) ==> !listedURL(es[ni].URLString, xs)
